@@ -1,7 +1,7 @@
 CHECK = dict(
     level='model_checking', distinct_global=True,
     parts=[dict(name='c19', src=['harness/c19_rotenc.c'], lib=['rotenc.c'], workers=16,
-                deadline=dict(quick=120, thorough=900))],
+                deadline=dict(quick=300, thorough=1800))],
     rule='rotenc.c is linked as an object of its own and used through <librfn/rotenc.h> only; every decoder state is reached by '
          'real rotenc_decode calls from ROTENC_VAR_INIT (no field of rotenc_t is written by the harness, no field order, width '
          'or completeness is assumed; only internal_count is read, and judged by differences modulo 2^16); a copy of a state is '
